@@ -154,9 +154,8 @@ def build_system(case):
     return A, b
 
 
-def execute(case):
-    T = core.tt()
-    ck = Checker()
+def build_operands(T, ck, case):
+    """Build the operands of one case (shared with C17, which runs the same classes on both backends)."""
     N = case["N"]
     d = len(N)
     eps = case["eps"]
@@ -203,6 +202,16 @@ def execute(case):
     if case.get("x0_is_rhs") and x0 is None:
         x0 = b
         ck.label("x0", "x0_is_rhs")
+    return A, b, x0, Ac, bc, solver, it
+
+
+def execute(case):
+    T = core.tt()
+    ck = Checker()
+    A, b, x0, Ac, bc, solver, it = build_operands(T, ck, case)
+    N = case["N"]
+    d = len(N)
+    eps = case["eps"]
     torch.manual_seed(case["lib_seed"])
     x = lib(lambda: T.solvers.amen_solve(A, b, x0=x0, eps=eps, preconditioner=case["prec"], max_full=case["max_full"],
                                         local_solver=case["local_solver"], use_cpp=False, verbose=False,
